@@ -387,13 +387,20 @@ def data_witness_probe(pid, classes=("Inventory", "InventoryHP")):
     failing = [k for k, v in res.items() if v == "false"]
     idxs = sorted({int(x) for x in re.findall(r"(\d+)%N", detail)})
     names, stable = U.dataset_names()
-    cand = [names[i] for i in idxs if i < len(names) and not stable[i]][:10]
+    # the witnesses themselves and their neighbours in the decay network (a failing row names the progeny, the edit may sit at the parent)
+    import numpy as np
+    dd = np.load(npz_path(None), allow_pickle=True)
+    prog = {str(n): [str(x) for x in pl if str(x) != "SF"] for n, pl in zip(dd["nuclides"], dd["progeny"])}
+    wit = [names[i] for i in idxs if 20 <= i < len(names)] or [names[i] for i in idxs if i < len(names)]
+    near = [p for p, pl in prog.items() if any(w in pl for w in wit)] + [c for w in wit for c in prog.get(w, [])]
+    radio_set = {n for n, s_ in zip(names, stable) if not s_}
+    cand = [x for x in dict.fromkeys(near + wit) if x in radio_set][:12]
     if not cand:
         return []
     found = []
     if pid == "C03":
         st, vv = {}, []
-        balance_stream(random.Random(0), 0, st, vv, [], only=cand[:8])
+        balance_stream(random.Random(0), 0, st, vv, [], only=cand[:12])
         for v in vv:
             found.append(dict(v["payload"], name="data-" + v["name"], key="data-" + v["key"], failing_certificate_components=failing))
         if found:
